@@ -150,7 +150,7 @@ CHECKS.update({
               "returning the symbolic content it hashes (contents = (first MiB, rest)), and OSError injected at the f-th file system call. Checked: every copy/unlink/symlink happens while the lock on "
               "<pool_path>.lock is held, the lock file is never removed, the lock is released on every exit iff taken, waiting out the timeout raises RuntimeError without touching anything (validity query "
               "on k), real data is never lost (incl. under faults), the destination equals the source after a successful transfer (validity query over content terms), no copy when both match, link mode "
-              "never replaces data nor uploads a link. Exhaustive (1.5k paths)."),
+              "never replaces data nor uploads a link. Exhaustive (1.5k paths). In addition 2 (3) real operations on the same pool file run as baton-passing threads with a solver-chosen switch at every shared file system call, lock attempt and sleep, over an inode-level lock model (a re-created lock file is a new inode): no access outside the critical section, never two processes inside it, no lock left behind (exhaustive for 2 processes, 24k interleavings)."),
         note="Assumed, not checked: fcntl exclusion between processes and release on process death (kernel). Remote transfers have no locks in the code and are excluded. Known finding: first-MiB-only hashing.",
         design="DESIGN.md §1 C14"),
 })
